@@ -74,14 +74,65 @@ def unbounded(text: str) -> bool:
                 return True
     return False
 
-def read_text(text, extra_files=None):
+_FAMILY = {}
+def family(cls_name: str) -> str:
+    """Family of an exception class name as logged by the hooks."""
+    import pydsdl
+    if cls_name in ("ParseError",):
+        return "ParseError"
+    if cls_name == "VisitationError":
+        return "Visitation"
+    if cls_name.startswith("RAW:"):
+        return "Raw"
+    if cls_name not in _FAMILY:
+        import gc
+        fam = "Raw"
+        for c in _all_subclasses(pydsdl.FrontendError):
+            if c.__name__ == cls_name:
+                fam = "IDE" if issubclass(c, pydsdl.InvalidDefinitionError) else "Internal"
+        _FAMILY[cls_name] = fam
+    return _FAMILY[cls_name]
+
+def _all_subclasses(c):
+    out = [c]
+    for s_ in c.__subclasses__():
+        out.extend(_all_subclasses(s_))
+    return out
+
+def funnel_record(events, res):
+    """The chain of `convert` events of one failed read -> a record for TraceFunnel.tla (None if there is none)."""
+    import pydsdl
+    paths = {}
+    def pid(p):
+        if p in (None, "None"):
+            return 0
+        return paths.setdefault(str(p), len(paths) + 1)
+    steps, own = [], 0
+    for e in events:
+        if e["ev"] == "read_end" and not e["ok"]:
+            own = pid(e["file"])
+        elif e["ev"] == "convert":
+            steps.append({"layer": e["layer"], "fam": family(e["cls"]), "line": e["line"] or 0, "path": pid(e["path"]),
+                          "at": e["at"] or 0, "own": own if e["layer"] == "read" else 0})
+    if not steps:
+        return None
+    fam = "IDE" if isinstance(res, pydsdl.InvalidDefinitionError) else ("Internal" if isinstance(res, pydsdl.FrontendError) else "Raw")
+    return {"steps": steps, "final": {"fam": fam, "line": getattr(res, "line", None) or 0, "path": pid(getattr(res, "path", None))}}
+
+def read_text(text, extra_files=None, want_trace=False):
     if unbounded(text):
-        return "skipped", None
+        return ("skipped", None, None) if want_trace else ("skipped", None)
     files = dict(fs.DEP_FILES)
     files["ns/A.1.0.dsdl"] = text
     files.update(extra_files or {})
     with dsdlio.Tree(files, "c13") as tr:
-        return dsdlio.read_ns(tr.path("ns"))[:2]
+        if not want_trace:
+            return dsdlio.read_ns(tr.path("ns"))[:2]
+        from pydsdl import _verif_trace
+        _verif_trace.drain()
+        status, res, _ = dsdlio.read_ns(tr.path("ns"))
+        rec = funnel_record(_verif_trace.drain(), res) if status == "err" else None
+        return status, res, rec
 
 @core.safe
 def worker(arg):
@@ -94,9 +145,9 @@ def worker(arg):
     c = st["case"]
     toks = apply_ops(fs.SEEDS[c["seed"] - 1], c["ops"])
     text = join(toks)
-    status, res = read_text(text)
+    status, res, frec = read_text(text, want_trace=True)
     bad = classify(status, res, "A.1.0.dsdl")
-    r = {"nt": status == "err", "key": core.jhash(tlaval.to_json(c)), "skipped": status == "skipped"}
+    r = {"nt": status == "err", "key": core.jhash(tlaval.to_json(c)), "skipped": status == "skipped", "funnel": frec, "text": text}
     if bad:
         r["bad"] = {"kind": "mutation", "case": tlaval.to_json(c), "text": text, "diff": [bad[0]]}
         if bad[1]:
@@ -186,6 +237,17 @@ def filename_worker(arg):
                     "diff": [("escaped exception is not an InvalidDefinitionError", type(res).__name__, str(res)[:300])]}
     return r
 
+def run_mut(ctx, cfg, mod, collect):
+    res = tlc.run("MC_Funnel", cfg, dump=True, tag="c13", timeout=3000)
+    ctx.add_tlc(res, cfg)
+    if res.violated:
+        ctx.spec_violation(res, cfg)
+        tlc.cleanup(res)
+        return
+    blocks = tlaval.split_dump_blocks(res.dump_path)
+    tlc.cleanup(res)
+    c02.consume(ctx, collect(core.pmap(worker, [(b, mod) for b in blocks], chunksize=100)), cfg)
+
 def run(ctx):
     assert [len(s) for s in fs.SEEDS] == [40, 35, 29] and len(fs.VOCAB) == 110, "spec/MC_Funnel.tla and Funnel.tla mirror these numbers"
     ctx.rule = ("TLC checks the propagation model over every (class, raise site) and enumerates every single token mutation "
@@ -203,8 +265,22 @@ def run(ctx):
         ctx.spec_violation(res, "Funnel_prop.cfg")
     tlc.cleanup(res)
     quick = ctx.tier == "quick"
-    c02.run_cfg(ctx, "MC_Funnel", "Funnel_mut1.cfg", worker, "mut1", mk=lambda blocks: [(b, 1) for b in blocks])
-    c02.run_cfg(ctx, "MC_Funnel", "Funnel_mut2.cfg", worker, "mut2", mk=lambda blocks: [(b, 30 if quick else 3) for b in blocks])
+    frecs = []
+    def collect(results):
+        for r in results:
+            if r and r.get("funnel") and "bad" not in r:
+                frecs.append((r["funnel"], r["text"]))
+        return results
+    run_mut(ctx, "Funnel_mut1.cfg", 1, collect)
+    run_mut(ctx, "Funnel_mut2.cfg", 30 if quick else 3, collect)
+    recs = [dict(f, id=n + 1) for n, (f, _t) in enumerate(frecs)]
+    from .. import records
+    badf = records.check(ctx, "TraceFunnel", recs, "c13funnel", slices=8)
+    for i in sorted(badf)[:40]:
+        ctx.violation({"kind": "funnel-trace", "case": recs[i - 1], "text": frecs[i - 1][1],
+                       "diff": [("the recorded chain of exception conversions is not the one the propagation rules produce", recs[i - 1]["steps"], recs[i - 1]["final"])]})
+    ctx.traces += len(recs)
+    ctx.extra["funnel_traces_validated"] = len(recs)
     ctx.exhaustive = False
     c02.consume(ctx, core.pmap(corner_worker, CORNERS, chunksize=2), "corner")
     n = 600 if quick else 6000
